@@ -16,11 +16,13 @@
 (*           if/elif chains (enumerated by the spec itself).                 *)
 (*  "member" x in / not in  (m1, ..) | [..] | {..} | {m: _, ..}: reference = *)
 (*           hash check for set/dict, then identity-or-equality scan.        *)
-(*           Implementation-shaped: FlattenInListTransform (x == m1 or ..,   *)
-(*           x != m1 and ..  -- no identity test, no hashing).               *)
+(*           Implementation-shaped: FlattenInListTransform (x is m1 or       *)
+(*           x == m1 or .. / the dual for not in -- no hashing; left operand *)
+(*           first).                                                        *)
 (*  "strin"  x in / not in a str or bytes literal (substring / byte value).  *)
 (*           Implementation-shaped for a C integer x: BytesContains on       *)
-(*           (char) x.                                                      *)
+(*           (char) x, or a switch on the byte values (character labels for  *)
+(*           a signed char subject).                                        *)
 (*  "pair"   a op b for the six rich comparisons over a wide value table    *)
 (*           (compact and multi-digit ints, bools, floats incl. -0.0, inf,   *)
 (*           nan, 2.0**53 next to 2**53+1, str/bytes/bytearray of different  *)
@@ -31,6 +33,16 @@
 (*           implementation-shaped = SwitchTransform (conditions merged into *)
 (*           a C switch unless has_duplicate_values finds equal              *)
 (*           constant_results) + C's rule that case labels are distinct.     *)
+(*  "bool"   boolean combinations (and / or / not, depth <= 2, 2-4 leaves)   *)
+(*           of == / != / in / not in tests of ONE C-integer subject against *)
+(*           literals, as an expression (return / conditional expression /   *)
+(*           while test) or as the conditions of an if/elif chain.           *)
+(*           Reference = Python's truth table (sets of subject values over   *)
+(*           the whole 8-bit image of the subject type); implementation-     *)
+(*           shaped = SwitchTransform.extract_conditions /                   *)
+(*           extract_common_conditions / has_duplicate_values / visit_*:     *)
+(*           which node becomes a switch with which labels.  SwitchSound:    *)
+(*           every switch has the truth table of the expression it replaces. *)
 (*                                                                          *)
 (* Abstract values (tokens):  m1 i0 i1 i2 (ints), f0 f1 (floats), T (True),  *)
 (*   sa sb ("a","b"), ba (b"a"), N (None), nan, U (an unhashable list []),   *)
@@ -39,11 +51,13 @@
 (*   __contains__ -> 2).  Result tokens: True False r0 r2 re rx E:<Type>.    *)
 EXTENDS Integers, Sequences, FiniteSets, TLC, Json, IOUtils
 
-CONSTANTS Part,      \* "shapes" (chain, pair, member, strin cases from the harness' shape file) | "switch"
-          MaxArms    \* switch: chains of 1..MaxArms arms
+CONSTANTS Part,      \* "shapes" (chain, pair, member, strin cases from the harness' shape file) | "switch" | "bool"
+          MaxArms,   \* switch: chains of 1..MaxArms arms
+          BoolSize,  \* bool: "q" | "t" (sizes of the leaf pools)
+          AndMerge   \* bool: "fixed" = extract_conditions as in /repo; "old" = before e6ec21370 (TLC must refute SwitchSound)
 
 Range(s) == {s[i] : i \in DOMAIN s}
-Shapes == IF Part = "switch" THEN <<>> ELSE ndJsonDeserialize(IOEnv.SHAPES)
+Shapes == IF Part = "shapes" THEN ndJsonDeserialize(IOEnv.SHAPES) ELSE <<>>
 
 ---------------------------------------------------------------------------
 (* values and the comparison operators of the language reference *)
@@ -119,13 +133,14 @@ MemberRef(kind, neg, x, ms) ==
   IF kind \in HashKinds /\ x = "U" THEN "E:TypeError"
   ELSE B((\E j \in DOMAIN ms : ms[j] = x \/ Truthy(Rich(ms[j], "==", x))) # neg)
 FlattenApplies(kind, ms) == kind \in {"tuple", "list", "set"} /\ Len(ms) >= 1
-Flatten(neg, x, ms) == IF neg THEN B(\A j \in DOMAIN ms : Truthy(Rich(x, "!=", ms[j])))
-                              ELSE B(\E j \in DOMAIN ms : Truthy(Rich(x, "==", ms[j])))
+\* the generated tests are marked is_containment_test: `(x is m) ? 1 : x == m` / `(x is m) ? 0 : x != m`
+Flatten(neg, x, ms) == IF neg THEN B(\A j \in DOMAIN ms : ms[j] # x /\ Truthy(Rich(x, "!=", ms[j])))
+                              ELSE B(\E j \in DOMAIN ms : ms[j] = x \/ Truthy(Rich(x, "==", ms[j])))
 MemberImpl(kind, neg, x, ms) == IF FlattenApplies(kind, ms) THEN Flatten(neg, x, ms) ELSE MemberRef(kind, neg, x, ms)
-\* FlattenInListTransform evaluates the non-simple members into temporaries *before* the left operand
-FlattenLog(kind, ms, leaves) == IF FlattenApplies(kind, ms) /\ leaves THEN [i \in 1..(Len(ms) + 1) |-> IF i <= Len(ms) THEN i ELSE 0]
-                                ELSE [i \in 1..(Len(ms) + 1) |-> i - 1]
-\* the two ways in which dropping identity and hashing can show
+\* FlattenInListTransform: the temporary of the left operand is the outermost one, those of the non-simple
+\* members nest inside it from left to right
+FlattenLog(kind, ms, leaves) == [i \in 1..(Len(ms) + 1) |-> i - 1]
+\* case classes: the element is found by identity only / the hash check decides
 IdentityOnly(x, ms) == /\ \E j \in DOMAIN ms : ms[j] = x
                        /\ ~\E j \in DOMAIN ms : Truthy(Rich(ms[j], "==", x))
 MemberWhy(kind, x, ms) == IF kind \in HashKinds /\ x = "U" THEN "unhashable"
@@ -138,12 +153,15 @@ StrinRef(kind, neg, x, cs) ==
   ELSE IF x.k = "bytes" THEN B(IsSub(x.cs, cs) # neg)
   ELSE IF x.k = "int" THEN (IF x.v \in 0..255 THEN B((x.v \in Range(cs)) # neg) ELSE "E:ValueError")
   ELSE "E:TypeError"
-\* a C integer x (int, long, unsigned char): with two or more distinct bytes in the literal SwitchTransform
-\* compares x with `char` constants (case '\xe9': is negative where char is signed); otherwise the operand
-\* is coerced to `char` and passed to __Pyx_BytesContains
+\* a C integer x of type sty ("int": int, long; "uchar"; "schar": signed char): with two or more distinct bytes in
+\* the literal SwitchTransform builds a switch -- on the byte values 0..255, unless the subject is a (signed) char
+\* (value_type.rank > 0 or not value_type.signed), which gets `char` constants (case '\xe9': is -23); otherwise
+\* the operand is coerced to `char` and passed to __Pyx_BytesContains
 SChar(b) == IF b >= 128 THEN b - 256 ELSE b
-BytesImplCInt(neg, v, cs) == IF Cardinality(Range(cs)) >= 2 THEN B((\E j \in DOMAIN cs : SChar(cs[j]) = v) # neg)
-                             ELSE B((\E j \in DOMAIN cs : (cs[j] - v) % 256 = 0) # neg)
+IntLabels(sty) == sty # "schar"
+BytesImplCInt(sty, neg, v, cs) ==
+  IF Cardinality(Range(cs)) >= 2 THEN B((\E j \in DOMAIN cs : (IF IntLabels(sty) THEN cs[j] ELSE SChar(cs[j])) = v) # neg)
+  ELSE B((\E j \in DOMAIN cs : (cs[j] - v) % 256 = 0) # neg)
 
 ---------------------------------------------------------------------------
 (* pair: wide value table.  Numbers carry an order-preserving integer key of their mathematical  *)
@@ -191,10 +209,12 @@ Sequential(chain, x) == LET S == {j \in DOMAIN chain : Matches(chain[j], x)}
 RECURSIVE Sorted(_)
 Sorted(S) == IF S = {} THEN <<>> ELSE LET m == CHOOSE v \in S : \A w \in S : v <= w IN <<m>> \o Sorted(S \ {m})
 \* extract_conditions / extract_in_string_conditions: the condition nodes of one arm with the key that
-\* has_duplicate_values compares (constant_result): an int for IntNode/CharNode/UnicodeNode characters,
-\* a 1-byte bytes object for the CharNodes made from a bytes literal
+\* has_duplicate_values compares (constant_result): an int for IntNode / UnicodeNode characters and for the nodes
+\* made from a bytes literal (IntNodes; CharNodes with constant_result = ord(character) for a char subject)
 CondsOf(fam, arm) == IF arm.f = "eq" THEN [j \in DOMAIN arm.ls |-> <<"i", arm.ls[j]>>]
-                     ELSE LET s == Sorted(Range(arm.ls)) IN [j \in DOMAIN s |-> <<(IF fam = "bytes" THEN "b" ELSE "i"), s[j]>>]
+                     ELSE LET s == Sorted(Range(arm.ls)) IN [j \in DOMAIN s |-> <<"i", s[j]>>]
+\* the chains that used to become switches with duplicate labels: an `==` arm and an `in b".."` arm share a value
+Mixed(fam, chain) == fam = "bytes" /\ \E i, j \in DOMAIN chain : chain[i].f = "eq" /\ chain[j].f = "in" /\ Range(chain[i].ls) \cap Range(chain[j].ls) # {}
 RECURSIVE AllConds(_, _)
 AllConds(fam, chain) == IF chain = <<>> THEN <<>> ELSE CondsOf(fam, Head(chain)) \o AllConds(fam, Tail(chain))
 HasDup(s) == \E i, j \in DOMAIN s : i < j /\ s[i] = s[j]
@@ -212,6 +232,164 @@ SwitchImplRow(fam, chain) ==
                          ELSE Sequential(chain, x)]          \* labels distinct: at most one arm holds x
 
 ---------------------------------------------------------------------------
+(* bool: boolean combinations of tests of one C-integer subject.                                    *)
+(* Subject families (the 8-bit image of the subject type; C-typed literals = what Cython types as   *)
+(* a C integer: IntNodes within signed 32 bit, single characters):                                  *)
+(*   int   int / long: image -128..127; every C-typed literal is in range                           *)
+(*   uchar unsigned char (not scaled): 0..255, promoted to int in C: literals 353 and -1 are        *)
+(*         C-typed, out of range and harmless                                                       *)
+(*   uint  unsigned int / enum: image 0..255 of 0..2**32-1 (128..255 stand for 2**32-128..2**32-1); *)
+(*         C-typed literals are -128..127 (signed 32 bit): -1 is out of range, and a `case -1L:`    *)
+(*         label is converted to the promoted type of the subject, i.e. wraps to 255                *)
+(*   ucs4  Py_UCS4: characters 0..255; the out-of-range literal is a 2-character string             *)
+(* WIDE = a literal that Cython types as a Python object (>= 2**32; the string "ab" for ucs4).      *)
+(* bhi: a Python int subject above bhi (or below 0) makes `x in b".."` raise ValueError.            *)
+WIDE == 1000
+FamRec == [int   |-> [lo |-> -128, hi |-> 127, bhi |-> 127, clo |-> -128, chi |-> 127, wrap |-> FALSE],
+           uchar |-> [lo |-> 0,    hi |-> 255, bhi |-> 255, clo |-> -500, chi |-> 500, wrap |-> FALSE],
+           uint  |-> [lo |-> 0,    hi |-> 255, bhi |-> 127, clo |-> -128, chi |-> 127, wrap |-> TRUE],
+           ucs4  |-> [lo |-> 0,    hi |-> 255, bhi |-> 255, clo |-> 0,    chi |-> 255, wrap |-> FALSE]]
+Fams == {"int", "uchar", "uint", "ucs4"}
+Dom(f) == FamRec[f].lo..FamRec[f].hi
+
+(* leaves: [op, kind, ls]: x ==/!= l (kind "lit"), x in/not in (l1, ..) ("tuple"), x in/not in b".." / ".." ("str") *)
+Lf(op, kind, ls) == [op |-> op, kind |-> kind, ls |-> ls]
+Odd(f) == CASE f = "uchar" -> 353 [] f = "ucs4" -> 233 [] OTHER -> -1
+Extra(f) == CASE f = "uint" -> Lf("==", "lit", <<255>>)            \* in range, but a Python object for Cython (4294967295)
+              [] f = "uchar" -> Lf("in", "str", <<97, 233>>)
+              [] f = "int" -> Lf("!=", "lit", <<-128>>)
+              [] OTHER -> Lf("in", "str", <<>>)
+\* ordered by importance: the smaller pools are prefixes
+LeafSeq(f) == << Lf("==", "lit", <<97>>), Lf("in", "tuple", <<98, 99>>), Lf("!=", "lit", <<98>>), Lf("notin", "tuple", <<100, Odd(f)>>),
+                 Lf("==", "lit", <<Odd(f)>>), Lf("in", "str", <<100, 101>>), Lf("!=", "lit", <<97>>), Lf("notin", "str", <<98, 99>>),
+                 Lf("==", "lit", <<WIDE>>), Lf("!=", "lit", <<Odd(f)>>), Lf("==", "lit", <<98>>), Lf("in", "tuple", <<101, Odd(f)>>),
+                 Lf("in", "str", <<97>>), Lf("in", "tuple", <<97, 97>>), Lf("notin", "tuple", <<99>>), Lf("in", "tuple", <<98, WIDE>>), Extra(f) >>
+Pn(f, n) == {LeafSeq(f)[i] : i \in 1..n}
+N2 == IF BoolSize = "q" THEN 10 ELSE 17       \* pool of the forms with two leaves
+N3 == IF BoolSize = "q" THEN 5 ELSE 9         \* three leaves
+\* four leaves: four equality-type leaves with pairwise different literals (a full merge exists), thorough: two more
+P4(f) == {LeafSeq(f)[i] : i \in IF BoolSize = "q" THEN {1, 2, 5, 6} ELSE 1..6}
+NS == IF BoolSize = "q" THEN 7 ELSE 12        \* if/elif chains: conditions that are one leaf
+NB == IF BoolSize = "q" THEN 3 ELSE 6         \* if/elif chains: conditions `leaf op leaf`
+
+(* expressions of depth <= 2: root [k: "and" | "or" | "not" | "id", l, r], child [k: "leaf" | "not" | "and" | "or", a, b] *)
+ChLeaf(a) == [k |-> "leaf", a |-> a, b |-> a]
+ChNot(a) == [k |-> "not", a |-> a, b |-> a]
+ChBin(o, a, b) == [k |-> o, a |-> a, b |-> b]
+Ex(k, l, r) == [k |-> k, l |-> l, r |-> r]
+BinOps == {"and", "or"}
+Exprs2(f) == LET P == Pn(f, N2) IN
+       {Ex(o, ChLeaf(a), ChLeaf(b)) : o \in BinOps, a \in P, b \in P}
+  \cup {Ex("not", ChBin(o, a, b), ChBin(o, a, b)) : o \in BinOps, a \in P, b \in P}
+  \cup {Ex(o, ChNot(a), ChLeaf(b)) : o \in BinOps, a \in P, b \in P}
+  \cup {Ex(o, ChLeaf(a), ChNot(b)) : o \in BinOps, a \in P, b \in P}
+  \cup {Ex(o, ChNot(a), ChNot(b)) : o \in BinOps, a \in P, b \in P}
+Exprs3(f) == LET P == Pn(f, N3) IN
+       {Ex(o, ChBin(o2, a, b), ChLeaf(d)) : o \in BinOps, o2 \in BinOps, a \in P, b \in P, d \in P}
+  \cup {Ex(o, ChLeaf(d), ChBin(o2, a, b)) : o \in BinOps, o2 \in BinOps, a \in P, b \in P, d \in P}
+  \cup {Ex(o, ChBin(o2, a, b), ChNot(d)) : o \in BinOps, o2 \in BinOps, a \in P, b \in P, d \in P}
+  \cup {Ex(o, ChNot(d), ChBin(o2, a, b)) : o \in BinOps, o2 \in BinOps, a \in P, b \in P, d \in P}
+Exprs4(f) == LET P == P4(f) IN
+       {Ex(o, ChBin(o2, a, b), ChBin(o3, d, e)) : o \in BinOps, o2 \in BinOps, o3 \in BinOps, a \in P, b \in P, d \in P, e \in P}
+Exprs(f) == Exprs2(f) \cup Exprs3(f) \cup Exprs4(f)
+Simple(f, ns, nb) == {Ex("id", ChLeaf(a), ChLeaf(a)) : a \in Pn(f, ns)}
+                \cup {Ex("id", ChBin(o, a, b), ChBin(o, a, b)) : o \in BinOps, a \in Pn(f, nb), b \in Pn(f, nb)}
+
+(* ---- reference: for every expression the set t of subject values that make it true and the set r of those *)
+(*      for which its evaluation raises (Python's and / or / not: left to right, short-circuit)              *)
+LeafNeg(lf) == lf.op \in {"!=", "notin"}
+LeafRaise(f, lf) == IF lf.kind = "str" /\ f # "ucs4" THEN Dom(f) \ (0..FamRec[f].bhi) ELSE {}
+TRLeaf(f, lf) == LET hit == Range(lf.ls) \cap Dom(f)
+                 IN [t |-> (IF LeafNeg(lf) THEN Dom(f) \ hit ELSE hit) \ LeafRaise(f, lf), r |-> LeafRaise(f, lf)]
+TRNot(f, a) == [t |-> Dom(f) \ (a.t \cup a.r), r |-> a.r]
+TRBin(f, o, a, b) == IF o = "and" THEN [t |-> a.t \cap b.t, r |-> a.r \cup (a.t \cap b.r)]
+                     ELSE LET fa == Dom(f) \ (a.t \cup a.r) IN [t |-> a.t \cup (fa \cap b.t), r |-> a.r \cup (fa \cap b.r)]
+TRChild(f, ch) == CASE ch.k = "leaf" -> TRLeaf(f, ch.a) [] ch.k = "not" -> TRNot(f, TRLeaf(f, ch.a))
+                    [] OTHER -> TRBin(f, ch.k, TRLeaf(f, ch.a), TRLeaf(f, ch.b))
+TRExpr(f, e) == CASE e.k = "id" -> TRChild(f, e.l) [] e.k = "not" -> TRNot(f, TRChild(f, e.l))
+                  [] OTHER -> TRBin(f, e.k, TRChild(f, e.l), TRChild(f, e.r))
+\* an if/elif chain: branch j gets the values for which the conditions before it were false and its own is true
+RECURSIVE Rows(_, _)
+Rows(trs, alive) == IF trs = <<>> THEN <<>>
+                    ELSE LET h == Head(trs) IN <<[t |-> alive \cap h.t, r |-> alive \cap h.r]>> \o Rows(Tail(trs), alive \ (h.t \cup h.r))
+RefRows(f, conds) == Rows([j \in DOMAIN conds |-> TRExpr(f, conds[j])], Dom(f))
+AllR(rows) == UNION {rows[j].r : j \in DOMAIN rows}
+
+(* ---- implementation-shaped: SwitchTransform.  An extraction result is NoM (NO_MATCH) or M(not_in, conditions). *)
+NoM == [ok |-> FALSE, ni |-> FALSE, cs |-> <<>>]
+M(ni, cs) == [ok |-> TRUE, ni |-> ni, cs |-> cs]
+CT(f, v) == v >= FamRec[f].clo /\ v <= FamRec[f].chi
+\* extract_conditions on a PrimaryCmpNode, or on the or / and chain that FlattenInListTransform made of a tuple:
+\* `!=` and `not in` only where allow_not_in; a comparison with a Python object literal does not match;
+\* a string literal gives the sorted set of its characters (extract_in_string_conditions)
+XLeaf(f, lf, allow) ==
+  IF lf.kind = "str" THEN (IF LeafNeg(lf) /\ ~allow THEN NoM ELSE M(LeafNeg(lf), Sorted(Range(lf.ls))))
+  ELSE IF (\E j \in DOMAIN lf.ls : ~CT(f, lf.ls[j])) \/ (LeafNeg(lf) /\ ~allow) THEN NoM
+  ELSE M(LeafNeg(lf), lf.ls)
+\* BoolBinopNode: `or` always, `and` only where allow_not_in; the operands are extracted with allow_not_in = (operator
+\* is `and`); they must agree on not_in, and (e6ec21370) `or` merges equality tests only, `and` inequality tests only
+MergeOK(ni, a2) == IF AndMerge = "fixed" THEN ni = a2 ELSE (~ni) \/ a2
+Merge(r1, r2, a2) == IF r1.ok /\ r2.ok /\ r1.ni = r2.ni /\ MergeOK(r1.ni, a2) THEN M(r1.ni, r1.cs \o r2.cs) ELSE NoM
+\* ConstantFolding._handle_NotNode runs first: `not (x in c)` is rewritten to `x not in c` and vice versa (not so == / !=)
+Flip(lf) == [lf EXCEPT !.op = IF lf.op = "in" THEN "notin" ELSE "in"]
+Fold(ch) == IF ch.k = "not" /\ ch.a.op \in {"in", "notin"} THEN ChLeaf(Flip(ch.a)) ELSE ch
+XChildN(f, ch, allow) == CASE ch.k = "leaf" -> XLeaf(f, ch.a, allow) [] ch.k = "not" -> NoM
+                          [] OTHER -> IF ch.k = "or" \/ allow
+                                      THEN Merge(XLeaf(f, ch.a, ch.k = "and"), XLeaf(f, ch.b, ch.k = "and"), ch.k = "and") ELSE NoM
+XChild(f, ch, allow) == XChildN(f, Fold(ch), allow)
+XExpr(f, e, allow) == CASE e.k = "id" -> XChild(f, e.l, allow) [] e.k = "not" -> NoM
+                        [] OTHER -> IF e.k = "or" \/ allow
+                                    THEN Merge(XChild(f, e.l, e.k = "and"), XChild(f, e.r, e.k = "and"), e.k = "and") ELSE NoM
+\* extract_common_conditions + the callers' tests: two or more conditions, no duplicate constant_result
+Sw(r) == r.ok /\ Len(r.cs) >= 2 /\ ~HasDup(r.cs)
+\* the C switch: a label is converted to the promoted type of the subject
+Conv(f, v) == IF FamRec[f].wrap /\ v < 0 THEN v + 256 ELSE v
+LabSet(f, cs) == {Conv(f, cs[j]) : j \in DOMAIN cs} \cap Dom(f)
+SwSet(f, r) == IF r.ni THEN Dom(f) \ LabSet(f, r.cs) ELSE LabSet(f, r.cs)
+\* code without a switch: C comparisons are exact (the literal is a long); x in b".." is __Pyx_BytesContains((char) x)
+PlainLeaf(f, lf) == LET hit == IF lf.kind = "str" /\ f # "ucs4"
+                               THEN {v + d : v \in Range(lf.ls), d \in {-256, 0, 256}} \cap Dom(f)     \* (char) x == (char) v
+                               ELSE Range(lf.ls) \cap Dom(f)
+                    IN IF LeafNeg(lf) THEN Dom(f) \ hit ELSE hit
+Comb(f, o, a, b) == IF o = "and" THEN a \cap b ELSE a \cup b
+\* visit_BoolBinopNode / visit_PrimaryCmpNode / visit_CondExprNode (allow_not_in = True): the node becomes a switch,
+\* or its children are visited (on = optimize.use_switch)
+ImplLeaf(f, lf, on) == IF on /\ Sw(XLeaf(f, lf, TRUE)) THEN SwSet(f, XLeaf(f, lf, TRUE)) ELSE PlainLeaf(f, lf)
+ImplChildN(f, ch, on) == CASE ch.k = "leaf" -> ImplLeaf(f, ch.a, on) [] ch.k = "not" -> Dom(f) \ ImplLeaf(f, ch.a, on)
+                          [] OTHER -> IF on /\ Sw(XChild(f, ch, TRUE)) THEN SwSet(f, XChild(f, ch, TRUE))
+                                      ELSE Comb(f, ch.k, ImplLeaf(f, ch.a, on), ImplLeaf(f, ch.b, on))
+ImplChild(f, ch, on) == ImplChildN(f, Fold(ch), on)
+ImplExpr(f, e, on) == CASE e.k = "id" -> ImplChild(f, e.l, on) [] e.k = "not" -> Dom(f) \ ImplChild(f, e.l, on)
+                        [] OTHER -> IF on /\ Sw(XExpr(f, e, TRUE)) THEN SwSet(f, XExpr(f, e, TRUE))
+                                    ELSE Comb(f, e.k, ImplChild(f, e.l, on), ImplChild(f, e.r, on))
+AnyLeaf(f, lf) == Sw(XLeaf(f, lf, TRUE))
+AnyChild(f, ch) == (ch.k \in BinOps /\ Sw(XChild(f, ch, TRUE))) \/ AnyLeaf(f, Fold(ch).a) \/ AnyLeaf(f, Fold(ch).b)
+TopExpr(f, e) == CASE e.k = "id" -> (IF e.l.k = "leaf" THEN AnyLeaf(f, e.l.a) ELSE e.l.k \in BinOps /\ Sw(XChild(f, e.l, TRUE)))
+                   [] e.k = "not" -> FALSE [] OTHER -> Sw(XExpr(f, e, TRUE))
+AnyExpr(f, e) == TopExpr(f, e) \/ AnyChild(f, e.l) \/ AnyChild(f, e.r)
+\* visit_IfStatNode: every condition is extracted with allow_not_in = False; all conditions together: two or more, no duplicates
+RECURSIVE CatCs(_)
+CatCs(xs) == IF xs = <<>> THEN <<>> ELSE Head(xs).cs \o CatCs(Tail(xs))
+IfX(f, conds) == [j \in DOMAIN conds |-> XExpr(f, conds[j], FALSE)]
+IfSw(f, conds) == (\A j \in DOMAIN conds : IfX(f, conds)[j].ok) /\ Len(CatCs(IfX(f, conds))) >= 2 /\ ~HasDup(CatCs(IfX(f, conds)))
+ImplRows(f, ctx, conds, on) ==
+  IF ctx = "stmt" /\ on /\ IfSw(f, conds)
+  THEN Rows([j \in DOMAIN conds |-> [t |-> LabSet(f, IfX(f, conds)[j].cs), r |-> {}]], Dom(f))
+  ELSE Rows([j \in DOMAIN conds |-> [t |-> ImplExpr(f, conds[j], on), r |-> {}]], Dom(f))
+TopSw(f, ctx, conds) == IF ctx = "stmt" THEN IfSw(f, conds) ELSE TopExpr(f, conds[1])
+AnySw(f, ctx, conds) == (ctx = "stmt" /\ IfSw(f, conds)) \/ \E j \in DOMAIN conds : AnyExpr(f, conds[j])
+\* where the generated code selects another branch than the reference (subject values for which the reference raises aside)
+SymDiff(a, b) == (a \ b) \cup (b \ a)
+Hazard(ref, impl) == UNION {SymDiff(ref[j].t, impl[j].t) : j \in DOMAIN ref} \ AllR(ref)
+\* the literals of a case, and the subject values that a negative C-typed label wraps to
+LeafLits(lf) == Range(lf.ls)
+ChildLits(ch) == LeafLits(ch.a) \cup LeafLits(ch.b)
+CaseLits(conds) == UNION {ChildLits(conds[j].l) \cup ChildLits(conds[j].r) : j \in DOMAIN conds}
+WrapPts(f, conds) == IF FamRec[f].wrap THEN {v + 256 : v \in {w \in CaseLits(conds) : w < 0 /\ CT(f, w)}} ELSE {}
+\* a set of integers as maximal intervals (for publication)
+Iv(S) == [s |-> {x \in S : (x - 1) \notin S}, e |-> {x \in S : (x + 1) \notin S}]
+
+---------------------------------------------------------------------------
 VARIABLES c, pc, k, log, out
 vars == <<c, pc, k, log, out>>
 
@@ -223,11 +401,21 @@ InitShape(s) ==
   ELSE IF s.part = "member" THEN \E x \in Range(s.xdom) : \E ms \in Prod(s.mdoms) :
                  c = [part |-> "member", id |-> s.id, kind |-> s.kind, neg |-> s.neg, x |-> x, ms |-> ms]
   ELSE \E i \in DOMAIN s.xdom :
-                 c = [part |-> "strin", id |-> s.id, kind |-> s.kind, neg |-> s.neg, x |-> s.xdom[i], cs |-> s.cs, cint |-> s.cint]
+                 c = [part |-> "strin", id |-> s.id, kind |-> s.kind, neg |-> s.neg, x |-> s.xdom[i], cs |-> s.cs, cint |-> s.cint, sty |-> s.sty]
 InitSwitch == \E fam \in {"bytes", "ustr"} : \E ch \in Chains : \E e \in BOOLEAN :
                  c = [part |-> "switch", fam |-> fam, arms |-> ch, els |-> e]
 
-Init == /\ IF Part = "switch" THEN InitSwitch ELSE \E i \in DOMAIN Shapes : InitShape(Shapes[i])
+\* bool: every expression as an expression case; as if/elif chains: one condition (the two-leaf forms), two simple
+\* conditions, and (thorough) three simple conditions
+BoolCase(f, ctx, conds) == [part |-> "bool", fam |-> f, ctx |-> ctx, conds |-> conds]
+InitBool == \E f \in Fams :
+              \/ \E e \in Exprs(f) : c = BoolCase(f, "expr", <<e>>)
+              \/ \E e \in Exprs2(f) : c = BoolCase(f, "stmt", <<e>>)
+              \/ \E e1 \in Simple(f, NS, NB) : \E e2 \in Simple(f, NS, NB) : c = BoolCase(f, "stmt", <<e1, e2>>)
+              \/ /\ BoolSize = "t"
+                 /\ \E e1 \in Simple(f, 5, 3) : \E e2 \in Simple(f, 5, 3) : \E e3 \in Simple(f, 5, 3) : c = BoolCase(f, "stmt", <<e1, e2, e3>>)
+
+Init == /\ IF Part = "switch" THEN InitSwitch ELSE IF Part = "bool" THEN InitBool ELSE \E i \in DOMAIN Shapes : InitShape(Shapes[i])
         /\ IF c.part = "chain" THEN pc = "links" /\ k = 1 /\ log = <<0>>
                                ELSE pc = "start" /\ k = 0 /\ log = <<>>
         /\ out = "pending"
@@ -271,11 +459,19 @@ PairDecide == /\ c.part = "pair" /\ pc = "start"
 SwitchDecide == /\ c.part = "switch" /\ pc = "start"
                 /\ pc' = "done" /\ out' = [x \in Subjects |-> Sequential(c.arms, x)] /\ UNCHANGED <<c, k, log>>
 
+\* bool: the reference rows, and next to them what the transcribed SwitchTransform makes of the case
+BoolDecide == /\ c.part = "bool" /\ pc = "start"
+              /\ pc' = "done" /\ UNCHANGED <<c, k, log>>
+              /\ out' = LET ref == RefRows(c.fam, c.conds)
+                            on  == ImplRows(c.fam, c.ctx, c.conds, TRUE)
+                            off == ImplRows(c.fam, c.ctx, c.conds, FALSE)
+                        IN [ref |-> ref, on |-> on, off |-> off, hz |-> Hazard(ref, on), hzoff |-> Hazard(ref, off)]
+
 Done == pc = "done" /\ UNCHANGED vars
 
 Next == \/ ChainContinue \/ ChainLast \/ ChainStopFalse \/ ChainRaise
         \/ MemberOperands \/ MemberHashFail \/ MemberHitIdentity \/ MemberHitEqual \/ MemberExhausted
-        \/ PairDecide \/ StrinDecide \/ SwitchDecide \/ Done
+        \/ PairDecide \/ StrinDecide \/ SwitchDecide \/ BoolDecide \/ Done
 Spec == Init /\ [][Next]_vars
 
 ---------------------------------------------------------------------------
@@ -313,28 +509,45 @@ PairOK == (c.part = "pair" /\ pc = "done") =>
 MemberOK == (c.part = "member" /\ pc = "done") =>
              /\ out = MemberRef(c.kind, c.neg, c.x, c.ms)
              /\ Len(log) = Len(c.ms) + 1
-\* FlattenInListTransform differs from the reference exactly in the two predicted ways
+             /\ FlattenLog(c.kind, c.ms, TRUE) = log          \* the flattened form evaluates in source order
+\* FlattenInListTransform differs from the reference in one predicted way only: a set display is not hashed
 MemberHazard == MemberImpl(c.kind, c.neg, c.x, c.ms) # MemberRef(c.kind, c.neg, c.x, c.ms)
 FlattenOffHazards == (c.part = "member" /\ pc = "done") =>
-             (MemberHazard => (FlattenApplies(c.kind, c.ms) /\ MemberWhy(c.kind, c.x, c.ms) # "none"))
+             /\ (MemberHazard => (FlattenApplies(c.kind, c.ms) /\ MemberWhy(c.kind, c.x, c.ms) = "unhashable"))
+             /\ (IdentityOnly(c.x, c.ms) /\ ~Unhashable => MemberImpl(c.kind, c.neg, c.x, c.ms) = B(~c.neg))
 FlattenStrict == (c.part = "member" /\ pc = "done") => ~MemberHazard
-FlattenOrderStrict == (c.part = "member" /\ pc = "done") => FlattenLog(c.kind, c.ms, TRUE) = log
 
-StrinHazard == c.cint /\ c.kind = "bytes" /\ c.x.k = "int" /\ BytesImplCInt(c.neg, c.x.v, c.cs) # out
+StrinHazard == c.cint /\ c.kind = "bytes" /\ c.x.k = "int" /\ BytesImplCInt(c.sty, c.neg, c.x.v, c.cs) # out
 StrinOK == (c.part = "strin" /\ pc = "done") =>
              /\ out \in Results
-             \* the C paths are exact on 7-bit values, and on all byte values when no switch is built
-             /\ (StrinHazard => (c.x.v \notin 0..255 \/ (c.x.v >= 128 /\ Cardinality(Range(c.cs)) >= 2)))
+             \* the C paths are exact on all byte values; outside range(256) they answer instead of raising
+             /\ (StrinHazard => (c.x.v \notin 0..255 /\ out = "E:ValueError"))
 StrinStrict == (c.part = "strin" /\ pc = "done") => ~StrinHazard
 
 SwitchHazard == SwitchImplRow(c.fam, c.arms) # [x \in Subjects |-> Sequential(c.arms, x)]
 SwitchOK == (c.part = "switch" /\ pc = "done") =>
              /\ \A x \in Subjects : out[x] \in 0..Len(c.arms)
              /\ \A x \in Subjects : out[x] # 0 => Matches(c.arms[out[x]], x) /\ \A j \in 1..(out[x] - 1) : ~Matches(c.arms[j], x)
-             \* a switch is only built from pairwise different keys; it is not a C program iff two keys denote one C value
-             /\ (SwitchHazard <=> (IsSwitch(c.fam, c.arms) /\ ~WellFormed(c.fam, c.arms)))
-             /\ (SwitchHazard => (c.fam = "bytes" /\ \E i, j \in DOMAIN c.arms : c.arms[i].f = "eq" /\ c.arms[j].f = "in"))
-SwitchStrict == (c.part = "switch" /\ pc = "done") => ~SwitchHazard
+             \* a switch is only built from pairwise different keys, and different keys are different C values
+             /\ (IsSwitch(c.fam, c.arms) => WellFormed(c.fam, c.arms))
+             /\ ~SwitchHazard
+             /\ (Mixed(c.fam, c.arms) => ~IsSwitch(c.fam, c.arms))
+
+BoolDone == c.part = "bool" /\ pc = "done"
+\* the reference rows partition a part of the subject type; a value is in at most one of: a branch, "raises"
+BoolRefOK == BoolDone =>
+             \A j \in DOMAIN out.ref :
+                /\ (out.ref[j].t \cup out.ref[j].r) \subseteq Dom(c.fam) /\ out.ref[j].t \cap out.ref[j].r = {}
+                /\ \A i \in 1..(j - 1) : (out.ref[i].t \cup out.ref[i].r) \cap (out.ref[j].t \cup out.ref[j].r) = {}
+                /\ (c.fam = "ucs4" \/ c.fam = "uchar" => out.ref[j].r = {})
+\* SwitchSound: wherever SwitchTransform applies, the switch has the truth table of the expression over the whole
+\* subject type -- except for a negative label on an unsigned subject of int rank (it wraps); without switches the
+\* code is exact wherever the reference does not raise
+SwitchSound == BoolDone =>
+             /\ out.hz \subseteq WrapPts(c.fam, c.conds)
+             /\ (out.hz # {} => AnySw(c.fam, c.ctx, c.conds))
+             /\ out.hzoff = {}
+BoolStrict == BoolDone => out.hz = {}
 
 (* publication of the final states *)
 Publish == pc = "done" =>
@@ -345,7 +558,12 @@ Publish == pc = "done" =>
                                                    ilog |-> FlattenLog(c.kind, c.ms, TRUE),
                                                    impl |-> MemberImpl(c.kind, c.neg, c.x, c.ms)]))
      [] c.part = "strin"  -> PrintT("@@" \o ToJson([p |-> "s", id |-> c.id, x |-> c.x, out |-> out, hz |-> StrinHazard,
-                                                   impl |-> IF c.cint /\ c.kind = "bytes" /\ c.x.k = "int" THEN BytesImplCInt(c.neg, c.x.v, c.cs) ELSE out]))
+                                                   impl |-> IF c.cint /\ c.kind = "bytes" /\ c.x.k = "int" THEN BytesImplCInt(c.sty, c.neg, c.x.v, c.cs) ELSE out]))
      [] c.part = "switch" -> PrintT("@@" \o ToJson([p |-> "w", fam |-> c.fam, arms |-> c.arms, els |-> c.els, row |-> out,
-                                                   sw |-> IsSwitch(c.fam, c.arms), anysw |-> AnySwitch(c.fam, c.arms), hz |-> SwitchHazard]))
+                                                   sw |-> IsSwitch(c.fam, c.arms), anysw |-> AnySwitch(c.fam, c.arms), hz |-> SwitchHazard,
+                                                   mix |-> Mixed(c.fam, c.arms)]))
+     [] c.part = "bool"   -> PrintT("@@" \o ToJson([p |-> "b", fam |-> c.fam, ctx |-> c.ctx, conds |-> c.conds,
+                                                   rows |-> [j \in DOMAIN out.ref |-> Iv(out.ref[j].t)], rz |-> Iv(AllR(out.ref)),
+                                                   on |-> [j \in DOMAIN out.on |-> Iv(out.on[j].t)], off |-> [j \in DOMAIN out.off |-> Iv(out.off[j].t)],
+                                                   hz |-> Iv(out.hz), top |-> TopSw(c.fam, c.ctx, c.conds), any |-> AnySw(c.fam, c.ctx, c.conds)]))
 =============================================================================
